@@ -156,6 +156,15 @@ func runC02(src sim.Source, o Opts) *Result {
 	nsteps := 4 + src.Intn("nsteps", 24)
 	var history []string
 	effIns, effDel := 0, 0
+	if pc.Fanout {
+		msg, ok := prefillFanout(w, committed, cfg, pool, &nextTag)
+		if !ok {
+			res.fail("C02/result", "%s", msg)
+			return res
+		}
+		history = append(history, msg)
+		res.inc("runs_with_fanout_above_50")
+	}
 
 	check := func(where string, rd world.Reader, set *model.Set) bool {
 		res.Checks++
